@@ -191,7 +191,7 @@ def jac_at_one_pos():
 # ---------------------------------------------------------------------------------- Zernike, XY, Hopkins
 def _polar(kind):
     if kind == 'scalar':
-        return Real('r', 0, 1), Real('t')
+        return Array('r', (), lo=0, hi=1), Array('t', ())        # 0-D coordinate arrays
     if kind == '1d':
         N = Int('N', 1)
         return Array('r', (N,), lo=0, hi=1), Array('t', (N,))
